@@ -111,17 +111,19 @@ type inv struct {
 }
 
 type rig struct {
-	s        *sess.Session
-	mu       sync.Mutex
-	nextID   int
-	removers map[int]client.Remover
-	used     map[int]bool
-	rmselfed map[int]bool
-	invs     []inv
-	recov    int
-	evseq    int
-	bgDone   map[string]chan struct{}
-	fail     string
+	s            *sess.Session
+	mu           sync.Mutex
+	nextID       int
+	removers     map[int]client.Remover
+	used         map[int]bool
+	rmselfed     map[int]bool
+	invs         []inv
+	recov        int
+	evseq        int
+	bgDone       map[string]chan struct{}
+	fail         string
+	recon        chan error
+	reconnecting bool
 }
 
 var maxRegs = 1 << 30
@@ -173,6 +175,16 @@ func newRig() (*rig, error) {
 	hookMu.Lock()
 	hookRigs[r.s.C] = r
 	hookMu.Unlock()
+	// the reconnect idiom: a foreground DISCONNECTED handler connects again (while "reconnecting" is set)
+	r.recon = make(chan error, 4)
+	r.s.C.HandleFunc(client.DISCONNECTED, func(c *client.Conn, l *client.Line) {
+		r.mu.Lock()
+		want := r.reconnecting
+		r.mu.Unlock()
+		if want {
+			r.recon <- c.Connect()
+		}
+	})
 	if err := r.s.Connect(); err != nil {
 		return nil, err
 	}
@@ -286,6 +298,27 @@ func (r *rig) apply(o *Op, check bool) string {
 			return fmt.Sprintf("no remover for %d", o.ID)
 		}
 		rm.Remove()
+	case "reconnect":
+		r.mu.Lock()
+		r.reconnecting = true
+		r.mu.Unlock()
+		r.s.Srv.EOF()
+		var err error
+		select {
+		case err = <-r.recon:
+		case <-time.After(5 * time.Second):
+			return "Connect called from the foreground DISCONNECTED handler did not return"
+		}
+		r.mu.Lock()
+		r.reconnecting = false
+		r.mu.Unlock()
+		if err != nil {
+			return "Connect called from the foreground DISCONNECTED handler returned " + err.Error()
+		}
+		r.s.LatestSrv()
+		if !r.s.Welcome("me", 5*time.Second) {
+			return "the connection made from the DISCONNECTED handler does not register / answer PING"
+		}
 	case "event":
 		r.mu.Lock()
 		r.evseq++
